@@ -282,7 +282,7 @@ func trimControlCharsAndSpaces(s string) string {
 		istart++
 	}
 	iend := len(s) - 1
-	for iend >= 0 {
+	for iend >= istart { // never step below istart: a value of only control chars and spaces trims to ""
 		if s[iend] > ' ' {
 			break
 		}
